@@ -97,6 +97,13 @@ where
         return Err(());
     }
     let scale = remaining_free_weight.into() / normalization;
+    if !scale.is_finite() {
+        // The `normalization` is too small to normalize the distribution: all nonzero entries
+        // would be scaled to infinity. The first pass below would then be arbitrarily far from
+        // the optimum, and the search for the optimum could take on the order of
+        // `1 << PRECISION` iterations.
+        return Err(());
+    }
 
     let mut slots = probabilities
         .iter()
